@@ -496,7 +496,11 @@ pub fn gen_history_ex(rng: &mut impl rand::RngCore, depth: usize, len: usize, al
                 20..=27 => TOp::Append(gen_leaf(rng)),
                 28..=34 => gen_range(rng, cap, mark, wide, bulk_limit),
                 35..=89 => gen_batch(rng, cap, mark, wide, max_removal, bulk_limit, pm_shapes),
-                90..=94 => TOp::Init((0..rng.gen_range(0..6usize).min(cap)).map(|_| gen_leaf(rng)).collect()),
+                90..=94 => {
+                    // batch initialisation: usually a few leaves, sometimes more than a thousand (also one more than fits)
+                    let n = if cap >= 1024 && cap <= 4096 && rng.gen_range(0..10) == 0 { [1024usize, 1025, cap, cap + 1][rng.gen_range(0..4)] } else { rng.gen_range(0..6usize).min(cap) };
+                    TOp::Init((0..n).map(|_| gen_leaf(rng)).collect())
+                }
                 // batch updates must also be right on a tree that was closed and reopened in between
                 95..=97 if persistent => TOp::Reopen,
                 _ => TOp::Reset,
@@ -543,7 +547,27 @@ fn bulk_pos(rng: &mut impl rand::RngCore, p: usize, bulk_limit: usize) -> usize 
     }
 }
 
+/// a batch larger than typical internal chunk sizes (1024, 2048), placed so that it fits, ends exactly at capacity,
+/// or has a first part that fits and a tail that does not
+fn big_batch(rng: &mut impl rand::RngCore, cap: usize, per_mille: u32) -> Option<(usize, usize)> {
+    // (only on trees of 2^10..2^12 leaves: the model and the sled backend need O(n * depth) hashes per batch)
+    if cap < 1024 || cap > 4096 || rng.gen_range(0..1000) >= per_mille {
+        return None;
+    }
+    let n = [1024usize, 1025, 1100, 2049, 3000][rng.gen_range(0..5)];
+    let start = match rng.gen_range(0..4) {
+        0 => cap.saturating_sub(n),                                  // ends exactly at capacity (if it fits at all)
+        1 => cap.saturating_sub(n) + rng.gen_range(1..40),           // tail beyond capacity, first chunk(s) fit
+        2 => cap.saturating_sub(1024) - rng.gen_range(0..cap.saturating_sub(1024).min(20) + 1), // first 1024 fit exactly
+        _ => 0,
+    };
+    Some((start, n))
+}
+
 fn gen_range(rng: &mut impl rand::RngCore, cap: usize, mark: usize, wide: bool, bulk_limit: usize) -> TOp {
+    if let Some((start, n)) = big_batch(rng, cap, 60) {
+        return TOp::Range(start, (0..n).map(|_| gen_leaf(rng)).collect());
+    }
     let n = [0usize, 1, 2, 3, 4, 5, 8, 17][rng.gen_range(0..8)];
     let start = match rng.gen_range(0..10) {
         0 => cap.saturating_sub(n),          // ends exactly at capacity
@@ -559,6 +583,11 @@ fn gen_range(rng: &mut impl rand::RngCore, cap: usize, mark: usize, wide: bool, 
 }
 
 fn gen_batch(rng: &mut impl rand::RngCore, cap: usize, mark: usize, wide: bool, max_removal: usize, bulk_limit: usize, pm_shapes: bool) -> TOp {
+    if let Some((start, n)) = big_batch(rng, cap, 12) {
+        // leaves-only or with a removal at the start of the range (the shape every backend implements)
+        let rm = if rng.gen_bool(0.5) && start <= max_removal { vec![start] } else { vec![] };
+        return TOp::Batch(start, (0..n).map(|_| gen_leaf(rng)).collect(), rm);
+    }
     let n = [0usize, 0, 1, 1, 2, 3, 5, 17][rng.gen_range(0..8)];
     let start = match rng.gen_range(0..12) {
         0 => cap.saturating_sub(n),
@@ -647,11 +676,8 @@ fn apply_model(m: &mut Model, op: &TOp) -> MOut {
             // batch initialisation = fresh tree followed by that write; if the write is rejected the
             // statement leaves the result open between "unchanged" and "fresh": we model "fresh" because
             // the reset has already been acknowledged by the API's own two-step definition
-            if vs.len() > m.cap() {
-                return MOut::Rejected;
-            }
             m.reset();
-            m.write_range(0, vs);
+            m.write_range(0, vs); // refused by the model itself when it does not fit: the tree stays fresh
             MOut::Applied
         }
         TOp::ComputeRoot | TOp::Reopen => MOut::Applied,
